@@ -99,6 +99,8 @@ def run(ctx):
                     a = cp[0].ret[2]
                     if len(a) == 2 and par(3)(a[0]) and par(2)(a[1]):
                         desc = True
+                if cp and len(cp) == 1 and cp[0].ret[0] == "ordcmp" and par(3)(cp[0].ret[1]) and par(2)(cp[0].ret[2]):
+                    desc = True
             ctx.check("C09-a", "%s#sort-descending" % fkey(f), desc, "matches sorted descending, so element len/2 is held by a majority",
                       "sort order / median position is not an accepted normal form (descending + len/2)", "%s:%s" % (f.file, f.line))
     # ---------------------------------------------------------------- C09-b voter filter on every caller
